@@ -90,6 +90,13 @@ extern "C" void harness() {
     else if (kind == 1) {      // remove the maximal cell at position j
 #if VP_REMOVABLE
       int j = vp_fork_int(vp_int("rmpos", 0, M - 1)); vp_assume(j < ncell && ncell > 1);
+#if VP_FLAVOUR == 1 && VP_REMOVABLE && VP_MAPC
+#ifdef VP_KF_RU_RM
+      vp_assume(step == 0 || inner_removed);
+#else
+      vp_assume(!inner_removed);   // known finding: any later operation through the lazy row maps (swap, insertion, another removal) may throw
+#endif
+#endif
 #if !VP_MAPC
       vp_assume(j == ncell - 1);   // vector column container: only the last cell can be removed
 #endif
